@@ -74,6 +74,22 @@ pub fn new_state_ctx(n: usize) -> (State, Arc<SimulationContext>) {
     (ShardedActorState::with_config_and_time_source(cfg, SimulatedTimeSource::new_default(ctx.clone())), ctx)
 }
 
+/// an instance built from a GENERATED `PerformanceConfig` that passed the real `validate()`
+/// (response pool capacity / prewarm); `None` if `validate()` rejects the configuration
+pub fn new_state_perf(n: usize, capacity: usize, prewarm: usize) -> Option<(State, Arc<SimulationContext>)> {
+    use redis_sim::production::PerformanceConfig;
+    let mut pc = PerformanceConfig::default();
+    pc.num_shards = n;
+    pc.response_pool.capacity = capacity;
+    pc.response_pool.prewarm = prewarm;
+    if pc.validate().is_err() {
+        return None;
+    }
+    let ctx = Arc::new(SimulationContext::new(0, FaultConfig::disabled()));
+    let cfg = ShardConfig { initial_shards: n, min_shards: 1, max_shards: 256, auto_scale: false, adaptive_replication: false, load_check_interval_ms: 10000 };
+    Some((ShardedActorState::with_perf_config_and_time_source(&pc, cfg, SimulatedTimeSource::new_default(ctx.clone())), ctx))
+}
+
 #[derive(Clone, Debug)]
 pub struct Op {
     pub name: &'static str,
@@ -113,7 +129,7 @@ impl Op {
             | "EINCR" | "ESINCR" => {
                 format!("{} {}", self.name, hk(0))
             }
-            "SET" | "SETNX" | "APPEND" | "GETSET" | "FSET" | "PSET" | "ESET" | "ESSET" => {
+            "SET" | "SETNX" | "APPEND" | "GETSET" | "FSET" | "PSET" | "ESET" | "ESSET" | "EVAL0SET" => {
                 format!("{} {} {}", self.name, hk(0), hex(&self.vals[0]))
             }
             "RPUSH" | "LPUSH" => {
@@ -254,6 +270,10 @@ pub async fn apply(st: &State, op: &Op) -> String {
         // the same single-key commands as Lua scripts, through EVAL and through SCRIPT LOAD + EVALSHA
         // EVALSHA of the GET script WITHOUT loading it here: it must be known node-wide because some
         // earlier EVAL (EGET, on whatever shard) introduced it
+        // a script WITHOUT KEYS that writes the key named by ARGV[1] (an undeclared key)
+        "EVAL0SET" => r1(&st
+            .execute(&Command::Eval { script: "return redis.pcall('SET', ARGV[1], ARGV[2])".to_string(), keys: vec![], args: vec![sds(&op.keys[0]), sds(&op.vals[0])] })
+            .await),
         "XSGET" => r1(&st
             .execute(&Command::EvalSha { sha1: GET_SCRIPT_SHA.get().cloned().unwrap_or_default(), keys: vec![k0()], args: vec![] })
             .await),
@@ -830,6 +850,38 @@ fn corpus(ctx: &Ctx) -> Vec<Case> {
         ops.push(Op::new("DEL", vec![p[0].clone(), d.clone()], vec![]));
     }
     cs.push(Case { n: 4, class: "two-key:EVALSIE", ops });
+    // very many keys (the distribution over the shards, DBSIZE / KEYS / DEL fan-out at scale) and a
+    // 1 MiB value, a non-UTF-8 value and the empty value
+    for n in [16usize, 64] {
+        let ks: Vec<Vec<u8>> = (0..2000).map(|i| format!("many:{:04}", i).into_bytes()).collect();
+        let mut ops = Vec::new();
+        for ch in ks.chunks(500) {
+            ops.push(Op::new("MSET", ch.to_vec(), ch.iter().map(|_| b"v".to_vec()).collect()));
+        }
+        ops.push(Op::nullary("DBSIZE"));
+        ops.push(Op::new("DEL", ks[..700].to_vec(), vec![]));
+        ops.push(Op::new("EXISTS", ks[600..900].to_vec(), vec![]));
+        ops.push(Op::nullary("DBSIZE"));
+        ops.push(keys_op(b"many:1[0-4]??"));
+        ops.push(Op::kv("SET", b"big", &vec![b'x'; 1 << 20]));
+        ops.push(Op::k("STRLEN", b"big"));
+        ops.push(Op::kv("APPEND", b"big", &[0xff, 0x00, 0xfe]));
+        ops.push(Op::kv("FSET", b"bin", &[0xff, 0xfe, 0x00, 0x80]));
+        ops.push(Op::k("GET", b"bin"));
+        ops.push(Op::kv("SET", b"empty-val", b""));
+        ops.push(Op::k("FGET", b"empty-val"));
+        ops.push(Op::new("DEL", vec![b"big".to_vec(), b"bin".to_vec()], vec![]));
+        cs.push(Case { n, class: "generic", ops });
+    }
+    // scripts with ZERO keys that touch a key through ARGV run on shard 0
+    let mut ops = Vec::new();
+    for d in p.iter().take(16) {
+        ops.push(Op::kv("EVAL0SET", d, b"u"));
+        ops.push(Op::k("GET", d));
+        ops.push(Op::k("FGET", d));
+    }
+    ops.push(Op::nullary("DBSIZE"));
+    cs.push(Case { n: 4, class: "undeclared-key", ops });
     // MSETNX runs whole on the first key's shard
     let mut ops = Vec::new();
     for d in p.iter().skip(1).take(20) {
@@ -899,7 +951,7 @@ fn random_case(ctx: &Ctx, rng: &mut Rng) -> Case {
     let class = *rng.pick(&[
         "generic", "generic", "generic", "mixed-consistent", "mixed-consistent", "mixed-consistent", "mixed-any",
         "mixed-any", "two-key:RENAME", "two-key:RENAMENX", "two-key:RPOPLPUSH", "two-key:LMOVE", "two-key:SORTSTORE",
-        "two-key:EVALSIE", "multi-key:MSETNX", "randomkey",
+        "two-key:EVALSIE", "multi-key:MSETNX", "randomkey", "undeclared-key",
     ]);
     let mut p = pool();
     // half of the cases draw their keys from the structured alphabet as well
@@ -990,6 +1042,8 @@ fn random_case(ctx: &Ctx, rng: &mut Rng) -> Case {
             let ks = some_keys(rng, 1, 4);
             let vs = ks.iter().map(|_| val(rng)).collect();
             Op::new("MSETNX", ks, vs)
+        } else if class == "undeclared-key" && c < 40 {
+            Op::kv("EVAL0SET", &pick(rng), &val(rng))
         } else if class == "randomkey" && c < 45 {
             Op::nullary("RANDOMKEY")
         } else {
@@ -1078,6 +1132,14 @@ fn listed_cause(case: &Case, c: &Ctx) -> Option<String> {
             let name = &x["two-key:".len()..];
             if case.ops.iter().any(|o| (o.name == name || (name == "EVALSIE" && o.name == "EVALSHASIE")) && c.gen(&o.keys[0], n) != c.gen(&o.keys[1], n)) {
                 Some(format!("C03:two-key:{}", name))
+            } else {
+                None
+            }
+        }
+        "undeclared-key" => {
+            // a script with no KEYS runs on shard 0: the cause is an EVAL0SET of a key whose home is not shard 0
+            if case.ops.iter().any(|o| o.name == "EVAL0SET" && c.gen(&o.keys[0], n) != 0) {
+                Some("C03:script-undeclared-key".into())
             } else {
                 None
             }
@@ -1260,6 +1322,7 @@ impl TOp {
             "SET" | "FSET" | "PSET" => format!("T {} {} {} {}", self.now, self.name, k0(), hex(&self.vals[0])),
             "SETPX" | "SETEX" => format!("T {} {} {} {} {}", self.now, self.name, k0(), hex(&self.vals[0]), self.num),
             "DBSIZE" => format!("T {} DBSIZE", self.now),
+            "EVICT" => format!("T {} EVICT", self.now),
             "BGET" | "MGET" => {
                 let mut l = format!("T {} {} {}", self.now, self.name, self.keys.len());
                 for k in &self.keys {
@@ -1314,16 +1377,19 @@ async fn apply_timed(st: &State, op: &TOp) -> String {
     }
 }
 
+/// make the node's clock read `target` ms — forwards, backwards, or unchanged (clock offset)
+pub fn set_now(sim: &Arc<SimulationContext>, target: u64) {
+    use redis_sim::io::simulation::{ClockOffset, NodeId};
+    let g = sim.now().as_millis() as i64;
+    sim.set_clock_offset(NodeId(0), ClockOffset { fixed_offset_ms: target as i64 - g, ..Default::default() });
+}
+
 async fn run_timed_on(n: usize, ops: &[TOp]) -> Vec<String> {
     let (st, sim) = new_state_ctx(n);
-    let mut now = 0u64;
     let mut out = Vec::new();
     for op in ops {
-        if op.now > now {
-            sim.advance_by(redis_sim::io::Duration::from_millis(op.now - now));
-            now = op.now;
-        }
-        out.push(apply_timed(&st, op).await);
+        set_now(&sim, op.now);
+        out.push(if op.name == "EVICT" { format!("i:{}", st.evict_expired_all_shards().await) } else { apply_timed(&st, op).await });
     }
     out
 }
@@ -1418,8 +1484,28 @@ fn timed_corpus(ctx: &Ctx) -> Vec<(usize, Vec<TOp>, String)> {
     cs
 }
 
+/// the TimeSource misbehaving: going BACKWARDS, standing still, jumping by years.  The property is
+/// about monotone time; here only the model ↔ code correspondence is checked (a 1-vs-N difference
+/// is legitimate: one shard has already evicted what a stale-stamped message on N shards still sees)
+fn timed_nonmonotone(ctx: &Ctx, rng: &mut Rng) -> (usize, Vec<TOp>) {
+    let (n, mut ops) = timed_random(ctx, rng);
+    let mut now = 1000u64;
+    for o in ops.iter_mut() {
+        now = match rng.below(6) {
+            0 => now.saturating_sub(*rng.pick(&[1u64, 50, 99, 100, 101, 500])),
+            1 => now,
+            2 => now + *rng.pick(&[1u64, 100, 101]),
+            3 => now + (1u64 << rng.range(20, 44)),
+            4 => now / 2,
+            _ => now + 7,
+        };
+        o.now = now;
+    }
+    (n, ops)
+}
+
 fn timed_random(ctx: &Ctx, rng: &mut Rng) -> (usize, Vec<TOp>) {
-    let n = *rng.pick(&[2usize, 4, 4, 8]);
+    let n = *rng.pick(&[2usize, 4, 4, 8, 3, 5]);
     let mut ks = timed_keys(ctx, n);
     rng.shuffle(&mut ks);
     let keys: Vec<Vec<u8>> = ks.into_iter().take(rng.range(2, 5) as usize).collect();
@@ -1438,7 +1524,7 @@ fn timed_random(ctx: &Ctx, rng: &mut Rng) -> (usize, Vec<TOp>) {
             4 => top(now, "SETEX", &k, &v, 1),
             5 => top(now, "GET", &k, b"", 0),
             6 => top(now, "EXISTS", &k, b"", 0),
-            7 => TOp { now, name: "DBSIZE", keys: vec![], vals: vec![], num: 0 },
+            7 => TOp { now, name: if rng.chance(1, 3) { "EVICT" } else { "DBSIZE" }, keys: vec![], vals: vec![], num: 0 },
             8 => top(now, "FGET", &k, b"", 0),
             9 => top(now, "PGET", &k, b"", 0),
             10 => top(now, "FSET", &k, &v, 0),
@@ -1504,7 +1590,10 @@ async fn run_timed(out: &mut Out, pend: &mut Vec<Pending>, carries: &str, n: usi
         out.count(&format!("timed:{}", label));
     }
     let lines: Vec<String> = ops.iter().map(|o| o.line()).collect();
-    if let Some(i) = (0..ops.len()).find(|&i| a1[i] != an[i]) {
+    // (the return value of the TTL tick is an internal metric that legitimately depends on the shard
+    // count; under a non-monotone clock a 1-vs-N difference is legitimate: correspondence only)
+    let monotone = label != "nonmonotone-clock";
+    if let Some(i) = (0..ops.len()).find(|&i| monotone && ops[i].name != "EVICT" && a1[i] != an[i]) {
         let kinds = ["generic", "fast_get", "fast_set", "pooled_fast_get", "pooled_fast_set", "fast_batch_get", "fast_batch_set"];
         let stale: Vec<&str> = carries.chars().zip(kinds.iter()).filter(|(c, _)| *c == '0').map(|(_, k)| *k).collect();
         let listed = if stale.is_empty() { None } else { Some(format!("C03:stale-clock:{}", stale.join("+"))) };
@@ -1541,6 +1630,7 @@ pub fn run(a: &Args) {
         for c in corpus(&ctx) {
             run_case(&mut out, &mut pend, &ctx, &c).await;
         }
+        crate::api::report(&mut out);
         crate::routes::run(&mut out).await;
         let carries = detect_carries(&ctx).await;
         out.extra.insert("message_kinds_adopting_the_virtual_time(generic,fast_get,fast_set,pooled_get,pooled_set,batch_get,batch_set)".into(), json!(carries));
@@ -1572,9 +1662,12 @@ pub fn run(a: &Args) {
             };
             run_case(&mut out, &mut pend, &ctx, &c).await;
             if r.chance(1, 6) {
-                if r.chance(1, 2) {
+                if r.chance(1, 3) {
                     let (tn, tops) = timed_random(&ctx, &mut r);
                     run_timed(&mut out, &mut pend, &carries, tn, &tops, "").await;
+                } else if r.chance(1, 3) {
+                    let (tn, tops) = timed_nonmonotone(&ctx, &mut r);
+                    run_timed(&mut out, &mut pend, &carries, tn, &tops, "nonmonotone-clock").await;
                 } else {
                     let path = *r.pick(&READ_PATHS);
                     let ttl = *r.pick(&["before", "at", "after", "far"]);
@@ -1617,5 +1710,19 @@ pub fn run(a: &Args) {
         });
         out.extra.insert("multi_key_command_coverage".into(), cov);
     }
+    out.extra.insert("audit".into(), serde_json::from_str(r####"{
+ "1 entry paths": "CLOSED: build.rs derives ShardMessage variants / ShardHandle fns / ShardedActorState pub fns from sharded_actor.rs, src/api.rs accounts for each (unaccounted → C03:api-not-covered); routes_gen.rs classifies every Command variant exhaustively, 82 key-bearing variants × 29 keys route-probed; EvictExpired driven (EVICT tick); OPEN: BatchCommand / execute_fire_and_forget (dead code, no caller), adaptive/metrics fns (not keyspace; probed only for non-interference)",
+ "2 input alphabet": "CLOSED: keys from a structured alphabet (tags empty/non-empty/nested/unbalanced, families, punctuation, CR LF, glob metacharacters, high bytes, non-UTF-8 on byte paths, empty, 300-byte); values: empty, binary / non-UTF-8, integers at i64 limits, 1 MiB; glob patterns of every shape; OPEN: value types other than string/list are covered only by the route probes (1-vs-N oracle, string pre-state), not by the model",
+ "3 comparisons at equality": "CLOSED: deadline just before / at / just past / far (every read path); DEL with 1 vs ≥ 2 keys (fan-out threshold); MSET on one vs several shards; SCAN count vs matches; shard counts at the clamp bounds (0, 1, 256, 1000)",
+ "4 configuration": "CLOSED: shard counts 0,1,2,3,5,7,64,256,1000 (clamping, non-powers of two), adaptive features on, PerformanceConfig through validate() with response-pool capacity 0/1/2/256 and prewarm 0..capacity+1; OPEN: buffers / batching / connection_pool fields are connection-level (C04)",
+ "5 capacity thresholds": "CLOSED: response pool crossed (capacity 1, > capacity outstanding), 2000-key keyspaces on 16/64 shards, batches of 500 pairs; OPEN: none known at this layer (mailboxes are unbounded)",
+ "6 fault kinds": "N/A at this layer (no I/O); task cancellation is C02's (abandon)",
+ "7 history shapes": "CLOSED: expiry passing between steps on every path, clock standing still / going backwards / jumping 2^44 ms (correspondence only: the 1-vs-N claim is for monotone time), type changes on a key, FLUSH in the middle, scripts introduced via one shard and used via another; OPEN: restart / reload does not exist at this layer",
+ "8 node-global state": "CLOSED: script cache in the model (script_cache_global_refines); CONFIG, CLIENT name, SCRIPT FLUSH, DBSIZE/FLUSHALL fan-out probed 1 vs 4 shards; OPEN: INFO (process-dependent fields not compared), ACL stubs",
+ "9 observations": "CLOSED: replies, aggregate dump through generic AND byte paths, KEYS as multiset, what exists after the clock passes deadlines (DBSIZE/EXISTS/GET through every path), EVICT tick count (model, not 1-vs-N: legitimately shard-count dependent); OPEN: TTL/PTTL values are C01's; panics of a shard actor surface as 'ERR shard response failed' replies (seen as disagreements), not caught separately",
+ "10 finding absorption": "CLOSED: listed findings attributed by cause + model prediction (resolve); new finding C03:script-undeclared-key added by cause",
+ "11 harness fragility": "CLOSED: routing probe no longer relies on RENAME; predictor unavailability reported; OPEN: a panic inside the harness' own tasks aborts the run (reported by check as harness exit)",
+ "monotone time hypothesis": "shard_count_unobservable_timed assumes non-decreasing virtual time. The real system CAN violate it per shard: get_current_virtual_time() is read before the message is enqueued, so two concurrent clients can enqueue stamps out of order (and a wall clock can step back); the model covers this (setTime with a smaller now), the correspondence exercises it (timed:nonmonotone-clock) and agrees. It is not a defect: a single client's command sequence (the property's quantifier) has monotone stamps; with concurrent clients a stale-stamped message overlaps the deadline in real time and either answer is linearizable; evicted keys never come back because eviction is permanent"
+}"####).unwrap());
     out.finish("case = one command sequence (8..40 ops over 3..9 keys; corpus cases up to 80 ops) run on real ShardedActorState instances with 1 and N ∈ {2,3,4,8,16} shards and on the model: single-key string/list commands, MGET/MSET/DEL/EXISTS fan-out, KEYS/DBSIZE/FLUSH, fast/pooled/batch byte paths (incl. non-UTF-8 keys), two-key commands, MSETNX, SCAN, RANDOMKEY; KEYS / SCAN MATCH patterns of every shape (literal only for an existing / a missing key, `*`, `?`, classes, negated classes, ranges, degenerate ranges, unterminated `[`, empty classes, mixed) over keyspaces of 8..45 keys spread over the shards; plus timed streams (SET [PX|EX], GET, EXISTS, DBSIZE, MGET/MSET, fast/pooled GET/SET, fast_batch_get/set_pipeline with the simulated clock advanced between commands: random streams, and the structured pattern `deadline; clock just before / at / just past / far past it; traffic for other shards only or none; read through one path` for every read path — distribution under timed:path=…; non-trivial iff a TTL is set, time passes and something is read); distinct by shard count + op text; non-trivial iff its keys live on ≥ 2 shards and it contains a fan-out, byte-path or two-key command");
 }
